@@ -219,7 +219,7 @@ ADD_TEXT = {
     "C11": " Sub-parts: a 33 000-instruction listing with occurrences around multiples of 32 768, and for each of 17 plausible chunk sizes a long listing whose occurrences straddle that index, matched by four rules (pair, ordered alternatives whose leftmost match needs the instruction past the cut, a greedy variable-length run, a 64-item rule). Injected regex time-outs (harness side) must surface as errors, never as a shorter list; template with a ranged run followed by an item the run's name also fits.",
     "C12": " The same laws are checked on long (> 64 KiB) listings whose occurrence straddles a plausible chunk size, in all 8 modes.",
     "C13": " Base rules contain $deref items, so formals also stand for values of a mapping directly under a key. Actuals may be spelled like another formal, formals are short enough to occur inside body literals, string macros may have a top-level alternation; differing regex texts are additionally judged on witness listings synthesised from the inlined rule.",
-    "C14": " A second family of generated histories rewrites the rule, listing, binary and macro-library files themselves in place (same path, same byte length, same second) between operations; every match step is compared with the same operation on a private copy of the files as they are at that step, run in a separately forked process. Pool and templates include inverted ranges, style x sections on binaries, and hand-written rule text with unquoted hexadecimal scalars.",
+    "C14": " A second family of generated histories rewrites the rule, listing, binary and macro-library files themselves in place (same path, same byte length, same second) between operations; every match step is compared with the same operation on a private copy of the files as they are at that step, run in a separately forked process. Pool and templates include inverted ranges, style x sections on binaries, and hand-written rule text with unquoted hexadecimal scalars. The rewrite histories are also driven by a hypothesis.stateful RuleBasedStateMachine (model: variant per slot + set of slots already read; preconditions steer towards rewriting a file that was read and asking again; one worker process per example).",
     "C16": " Edits include byte columns wider than 7 bytes (objdump --insn-width), comments that end in a colon or look like a section header, and every stream comparison is repeated with valid_addr_range and a sections list configured. The raw-byte column may be removed altogether (objdump --no-show-raw-insn).",
     "C17": " In addition to the random campaign every (input mode, fault) cell is evaluated on every run (deterministic grid; thorough: three bases, API and CLI). Further fault kinds: listing saved as UTF-16, undefined macro introduced by another macro's expansion.",
     "C19": " Reference names include non-identifiers (@64bit_, @8_), references spliced into longer mnemonic/operand names, and a reference to a macro that is defined but applied before its user (must be reported or expanded, never kept). Cyclic macro definitions are a fault kind.",
